@@ -276,8 +276,11 @@ def get_line_words(line: Union[pdm.PageXMLTextLine, str], word_break_chars: Unio
     #     line = line[:-2] + word_break_chars
     terms = [term for term in re.split(r'\b', line) if term != '']
     for ti, term in enumerate(terms):
-        if ti == 0:
-            new_terms.append(term)
+        if term.strip() == '':
+            # runs of whitespace separate words, they are not words themselves
+            continue
+        if ti == 0 or len(new_terms) == 0:
+            new_terms.append(term.strip())
         else:
             prev_term = terms[ti - 1]
             # if term[0] == '-' and prev_term[0].isalpha():
